@@ -20,6 +20,7 @@ ap.add_argument('--checks', required=True)
 ap.add_argument('--tier', default='quick')
 ap.add_argument('--demo-timeout', type=int, default=1500)
 ap.add_argument('--skip-confirm', action='store_true', help='only run the checks (confirmation already recorded)')
+ap.add_argument('--append-to', help='with --test-name: append demo.rs to this source file instead of applying demo.diff')
 ap.add_argument('--test-name', help='the demonstration is an in-crate #[test] added by demo.diff: name of the test')
 a = ap.parse_args()
 
@@ -56,7 +57,10 @@ if a.test_name:
     env = dict(env, CARGO_TARGET_DIR=f'{base}/target-tests')
     if os.path.exists(os.path.join(a.src, 'demo.diff')):
         shutil.copy(os.path.join(a.src, 'demo.diff'), os.path.join(out, 'demo.diff'))
-if not a.skip_confirm and a.test_name:
+if not a.skip_confirm and a.test_name and a.append_to:
+    appended = '\n' + open(os.path.join(a.src, 'demo.rs')).read()
+    open(os.path.join(repo, a.append_to), 'a').write(appended)
+elif not a.skip_confirm and a.test_name:
     subprocess.check_call(['patch', '-p1', '-s', '--no-backup-if-mismatch', '-d', repo, '-i', os.path.join(a.src, 'demo.diff')])
 if not a.skip_confirm:
     os.makedirs(f'{repo}/examples', exist_ok=True)
@@ -73,6 +77,10 @@ if not a.skip_confirm:
     meta['demo_changed_tail'] = (so + se)[-1200:]
     if not a.test_name:
         os.remove(f'{repo}/examples/seed_demo.rs')
+    elif a.append_to:
+        t = open(os.path.join(repo, a.append_to)).read()
+        assert t.endswith(appended)
+        open(os.path.join(repo, a.append_to), 'w').write(t[:-len(appended)])
     else:
         subprocess.check_call(['patch', '-R', '-p1', '-s', '--no-backup-if-mismatch', '-d', repo, '-i', os.path.join(a.src, 'demo.diff')])
     rct, so, se, dt = run(['cargo', 'test', '--offline'], 3000, cwd=repo, env=dict(env, CARGO_TARGET_DIR=f'{base}/target-tests'))
